@@ -533,3 +533,52 @@ Proof.
   destruct (realpath d t cwd base) as [rb|e]; [|destruct e; try congruence; discriminate].
   destruct (inside rb q); discriminate.
 Qed.
+
+(* ------------------------------------------------------------------ the directories a listing scans *)
+Lemma lstat_at_app : forall t a b pre, b <> [] ->
+  lstat_at t pre (a ++ b) = match lstat_at t pre a with Some Dir => lstat_at t (pre ++ a) b | _ => None end.
+Proof.
+  intros t. induction a as [|x a IH]; intros b pre Hb.
+  - simpl. rewrite app_nil_r. destruct b as [|c b]; [contradiction|]. simpl. destruct (look t pre) as [[| |tg]|]; reflexivity.
+  - simpl. destruct (look t pre) as [[| |tg]|]; try reflexivity.
+    rewrite (IH b (pre ++ [x]) Hb). rewrite <- app_assoc. reflexivity.
+Qed.
+
+Lemma prefixes_from_in : forall rest pre p, In p (prefixes_from pre rest) ->
+  exists a b, rest = a ++ b /\ p = pre ++ a /\ a <> [].
+Proof.
+  induction rest as [|c rest IH]; intros pre p H; simpl in H; [contradiction|].
+  destruct H as [<-|H].
+  - exists [c], rest. repeat split. discriminate.
+  - destruct (IH _ _ H) as [a [b [E1 [E2 _]]]]. exists (c :: a), b. subst. repeat split.
+    + rewrite <- app_assoc. reflexivity.
+    + discriminate.
+Qed.
+
+Lemma lstat_dir_no_link : forall t d, lstat t d = Some Dir -> no_link_prefix t d = true.
+Proof.
+  intros t d H. unfold no_link_prefix. apply forallb_forall. intros p Hp.
+  destruct (prefixes_from_in _ _ _ Hp) as [a [b [E1 [E2 _]]]]. simpl in E2. subst p d.
+  destruct b as [|c b].
+  - rewrite app_nil_r in H. rewrite H. reflexivity.
+  - unfold lstat in *. rewrite lstat_at_app in H by discriminate.
+    destruct (lstat_at t [] a) as [[| |tg]|]; try discriminate. reflexivity.
+Qed.
+
+Lemma list_scans_ok : forall d t cwd base prefix ds dd,
+  list_scans d t cwd base prefix = Ok ds -> In dd ds ->
+  exists rb q, realpath d t cwd base = Ok rb /\ resolve d t cwd base prefix = Ok q
+    /\ is_prefix q dd = true /\ is_prefix rb dd = true /\ names dd
+    /\ lstat t dd = Some Dir /\ no_link_prefix t dd = true.
+Proof.
+  intros d t cwd base prefix ds dd H Hin. unfold list_scans in H.
+  destruct (resolve d t cwd base prefix) as [q|e] eqn:Er; [|discriminate].
+  destruct (negb (exists_loc t q)); inversion H; subst; [contradiction|].
+  pose proof (resolve_ok _ _ _ _ _ _ Er) as [rb [Eb [_ [Hp _]]]].
+  unfold walk_dirs in Hin. apply filter_In in Hin. destruct Hin as [_ Hc].
+  apply andb_true_iff in Hc. destruct Hc as [Hc Hd]. apply andb_true_iff in Hc. destruct Hc as [Hq Hn].
+  destruct (lstat t dd) as [[| |tg]|] eqn:El; try discriminate.
+  exists rb, q. repeat split; try assumption.
+  - eapply is_prefix_trans; eassumption.
+  - apply lstat_dir_no_link. exact El.
+Qed.
